@@ -135,14 +135,23 @@ def flags_of(values):
 _REALISE_CACHE = {}
 
 
-def realise(cell, rng, budget=1500):
-    key = tuple(sorted((repr(q), r) for q, r in cell.items() if numeric_evaluable(q)))
+def order_class(v, bps):
+    """position of a value among sorted breakpoints: (number of breakpoints below it, whether it sits on one)"""
+    below = sum(1 for b in bps if b < v)
+    return (below, v in bps)
+
+
+def realise(cell, rng, budget=1500, breaks=None):
+    """breaks: dict q -> breakpoints.  With breaks a cell is realised by data that puts every quantity in the same
+    *order class* (same side of every breakpoint), which is all a cell means; without, the exact ranks are required."""
+    key = (tuple(sorted((repr(q), r) for q, r in cell.items() if numeric_evaluable(q))),
+           None if breaks is None else tuple(sorted((repr(q), tuple(sorted(b))) for q, b in breaks.items() if q in cell)))
     if key not in _REALISE_CACHE:
-        _REALISE_CACHE[key] = _realise(cell, rng, budget)
+        _REALISE_CACHE[key] = _realise(cell, rng, budget, breaks)
     return _REALISE_CACHE[key]
 
 
-def _realise(cell, rng, budget=1500):
+def _realise(cell, rng, budget=1500, breaks=None):
     """search exact rational atom values putting every numerically evaluable quantity on its rank.
     -> env dict or None.  Quantities that are not closed arithmetic forms (std, geodesic) are
     independent uninterpreted values and are always realisable (they get the rank itself)."""
@@ -159,7 +168,23 @@ def _realise(cell, rng, budget=1500):
         if r != 0:
             units.add(abs(r))
             units.add(abs(r) / 2)
-    units = sorted(units)[:4]
+    # coefficients far from 1 (e.g. a relative tolerance 1e-5) need data of the reciprocal magnitude to matter
+    def coeffs(e, acc):
+        if isinstance(e, tuple):
+            if e and e[0] == 'lin':
+                for g, k in e[1]:
+                    if k != 0 and (abs(k) < Fr(1, 50) or abs(k) > 50):
+                        acc.add(abs(1 / k))
+                    coeffs(g, acc)
+            else:
+                for a in e:
+                    if isinstance(a, tuple):
+                        coeffs(a, acc)
+        return acc
+    big = set()
+    for q, _ in qs:
+        coeffs(q, big)
+    units = sorted(units)[:4] + sorted(big)[:2]
     # 1. single-atom quantities: direct assignment
     env0 = {}
     for q, r in qs:
@@ -167,13 +192,23 @@ def _realise(cell, rng, budget=1500):
             env0[q] = r
     free = [a for a in atoms if a not in env0]
 
+    classes = None
+    if breaks is not None:
+        classes = {q: (sorted(breaks.get(q, ())), order_class(r, sorted(breaks.get(q, ())))) for q, r in qs}
+
     def ok(env):
         for q, r in qs:
             try:
-                if X.eval_num(q, env) != r:
-                    return False
+                v = X.eval_num(q, env)
             except ZeroDivisionError:
                 return False
+            if classes is None:
+                if v != r:
+                    return False
+            else:
+                bps, want = classes[q]
+                if order_class(v, bps) != want:
+                    return False
         return True
     if not free:
         return env0 if ok(env0) else None
@@ -193,9 +228,11 @@ def _realise(cell, rng, budget=1500):
                     break
     while tried < budget * 5:
         u = rng.choice(units)
+        mixed = rng.random() < 0.5        # mixed magnitudes: every atom draws its own unit
         env = dict(env0)
         for a in free:
-            env[a] = u * rng.randint(-12, 12) / rng.choice((1, 1, 2))
+            ua = rng.choice(units) if mixed else u
+            env[a] = ua * rng.randint(-12, 12) / rng.choice((1, 1, 2))
         tried += 1
         if ok(env):
             return env
@@ -238,7 +275,7 @@ def compare_position(flag_expr, spec_quantities, allowed_fn, rng, result, label,
         if want is None:        # spec declares the cell impossible / out of scope
             continue
         if not got <= set(want):
-            env = realise(cell, rng)
+            env = realise(cell, rng, breaks=qs)
             if env is None and all(numeric_evaluable(q) for q in order):
                 result.unrealised += 1
                 continue
@@ -287,7 +324,7 @@ def compare_pair(expr_a, expr_b, relation, rng, result, label, max_cells=20000):
         result.cells += 1
         result.distinct.add((frozenset(fa), frozenset(fb), tuple(combo)))
         if not relation(fa, fb):
-            env = realise(cell, rng)
+            env = realise(cell, rng, breaks=qs)
             if env is None and all(numeric_evaluable(q) for q in order):
                 result.unrealised += 1
                 continue
